@@ -132,6 +132,34 @@ pub fn check_view(what: &str, v: &DnaStringSlice, m: &[u8], is_rc: bool, salt: u
             return Err(ctx("== is true against a shorter view".into()));
         }
     }
+    // equality against views of the SAME backing string (same interval, other strand; shifted interval)
+    {
+        let vr = v.rc();
+        let want = rc(m) == m;
+        if (*v == vr) != want || (vr == *v) != want {
+            return Err(ctx(format!(
+                "view == view.rc() is {} but the denoted sequence {} its reverse complement",
+                *v == vr,
+                if want { "equals" } else { "differs from" }
+            )));
+        }
+        if !(vr.rc() == *v) {
+            return Err(ctx("view.rc().rc() != view".into()));
+        }
+        if n >= 2 {
+            let head = DnaStringSlice { dna_string: v.dna_string, start: v.start, length: n - 1, is_rc: false };
+            let tail = DnaStringSlice { dna_string: v.dna_string, start: v.start + 1, length: n - 1, is_rc: false };
+            let hm: Seq = (0..n - 1).map(|i| head.get(i)).collect();
+            let tm: Seq = (0..n - 1).map(|i| tail.get(i)).collect();
+            if (head == tail) != (hm == tm) {
+                return Err(ctx("== between two overlapping views of the same string disagrees with their contents".into()));
+            }
+            let headrc = head.rc();
+            if (head == headrc) != (hm == rc(&hm)) {
+                return Err(ctx("== between a view and its reverse complement disagrees with their contents".into()));
+            }
+        }
+    }
     // k-mers
     check_container::<Kmer3, _>(what, v, m, 0)?;
     check_container::<Kmer5, _>(what, v, m, 0x81)?;
